@@ -32,4 +32,18 @@ __CPROVER_assigns(REP_ARCH_GHOST REP_ARCH_EXTRA)
 __CPROVER_ensures(g_arch_calls == __CPROVER_old(g_arch_calls) + 1 && g_arch_name == fname && g_arch_kind == g_nm_kind && g_arch_num == g_nm_num)
 __CPROVER_ensures(g_arch_track_hits == __CPROVER_old(g_arch_track_hits) + ((g_nm_kind == g_arch_track_kind && g_nm_num == g_arch_track_num) ? 1u : 0u))
 ;
+/* repair_table: call-protocol carrier used by rep.scan.  Its PRECONDITION is the caller's obligation: the table
+ * handed over for salvage is named by the file that was actually found (NNNNNN.ldb or legacy NNNNNN.sst) and the
+ * tabinfo carries that table's number. */
+unsigned g_rt_calls; ldb_tabinfo_t *g_rt_t;
+int g_found_kind;                  /* which of the two table names exists (set by the ldb_file_size model)  */
+#ifndef REP_RT_EXTRA
+#define REP_RT_EXTRA
+#endif
+void c_repair_table(ldb_repair_t *rep, const char *src, ldb_tabinfo_t *t)
+__CPROVER_requires(rep == g_rep && __CPROVER_rw_ok(t, sizeof(*t)))
+__CPROVER_requires(src == g_nm_buf && g_nm_kind == g_found_kind && (g_nm_kind == LDB_FILE_TABLE || g_nm_kind == NM_SST) && g_nm_num == t->meta.number)
+__CPROVER_assigns(g_rt_calls, g_rt_t REP_RT_EXTRA)
+__CPROVER_ensures(g_rt_calls == __CPROVER_old(g_rt_calls) + 1 && g_rt_t == t)
+;
 #endif
